@@ -151,7 +151,7 @@ func (e *Error) MarshalJSON() ([]byte, error) {
 		State:            e.State,
 		SessionState:     e.SessionState,
 	}
-	if e.returnParent {
+	if e.returnParent && e.Parent != nil {
 		m.Parent = e.Parent.Error()
 	}
 	return json.Marshal(m)
